@@ -286,9 +286,8 @@ Proof. split; exists 0; (split; [simpl; lia | vm_compute; discriminate]). Qed.
 Example Gex_level2 :
   level_strings (Gex 10) 2%Z =
   [[98;97;98]; [97;98;97;97]; [97;97;98;97]; [97;97;97;98]; [98;97;97;97]]%N /\
-  (forall optmax,
-   match enumerate (ip_at (Gex 10)) (cp_fast (Gex 10)) (ln_at (Gex 10)) 10 optmax 0 20 cempty 2%Z with
-   | Some (l, Done, _, _) => l = level_strings (Gex 10) 2%Z
-   | _ => False
-   end).
-Proof. split; [vm_compute; reflexivity | intro optmax; vm_compute; reflexivity]. Qed.
+  match enumerate (ip_at (Gex 10)) (cp_fast (Gex 10)) (ln_at (Gex 10)) 10 4 0 20 cempty 2%Z with
+  | Some (l, Done, _, _) => l = level_strings (Gex 10) 2%Z
+  | _ => False
+  end.
+Proof. split; vm_compute; reflexivity. Qed.
